@@ -233,6 +233,14 @@ pub fn run(args: &Args) {
 		deque_history::<Vec<u8>>(&mut cx, "Vec<u8>", 8);
 		deque_history::<(u8, bool)>(&mut cx, "(u8,bool)", 8);
 		deque_history::<Box<u16>>(&mut cx, "Box<u16>", 6);
+		// element types whose memory image is not their encoding: zero-sized with a wire byte,
+		// a skipped field that occupies memory, a transparent newtype around a compact
+		deque_history::<crate::universe::Unit1>(&mut cx, "Unit1", 8);
+		deque_history::<crate::universe::SkP>(&mut cx, "SkP", 8);
+		deque_history::<crate::universe::TrC>(&mut cx, "TrC", 6);
+		deque_history::<()>(&mut cx, "()", 6);
+		vec_history::<crate::universe::SkP>(&mut cx, "SkP");
+		vec_history::<crate::universe::Unit1>(&mut cx, "Unit1");
 		vec_history::<u8>(&mut cx, "u8");
 		vec_history::<u32>(&mut cx, "u32");
 		vec_history::<String>(&mut cx, "String");
@@ -247,7 +255,7 @@ pub fn run(args: &Args) {
 		bits_history::<u64, Lsb0>(&mut cx, "u64,Lsb0");
 		bits_history::<u64, Msb0>(&mut cx, "u64,Msb0");
 	}
-	let rule = "seeded construction histories on the real containers: VecDeque (push_front/back, pop, rotate, make_contiguous, reserve, shrink; checked after every operation, ring states counted in the distribution), Vec/String capacity changes, Box/Rc/Arc/Cow/&& holders with clone/borrow/own transitions, BTreeMap/BTreeSet with insert/remove sequences rebuilt in reverse and shuffled order, LinkedList push/append/split_off, bit sequences placed at every offset 0..W+2 of a larger backing store (slice, owned, boxed) for six store/order combinations; oracle = equals the encoding of a freshly built equal value and is repeatable; cases = the model's encoding of the logical content; non-trivial = non-empty encoding";
+	let rule = "seeded construction histories on the real containers: VecDeque (push_front/back, pop, rotate, make_contiguous, reserve, shrink; checked after every operation, ring states counted in the distribution; element types u8/u32/u64/Vec<u8>/(u8,bool)/Box<u16> and three whose memory image is not their encoding: a zero-sized type with a wire byte, a struct with a skipped field that occupies memory, a transparent newtype around a compact), Vec/String capacity changes, Box/Rc/Arc/Cow/&& holders with clone/borrow/own transitions, BTreeMap/BTreeSet with insert/remove sequences rebuilt in reverse and shuffled order, LinkedList push/append/split_off, bit sequences placed at every offset 0..W+2 of a larger backing store (slice, owned, boxed) for six store/order combinations; oracle = equals the encoding of a freshly built equal value and is repeatable; cases = the model's encoding of the logical content; non-trivial = non-empty encoding";
 	cx.cases.write(&args.out, "c06", args.shards);
 	cx.oracle.write(&args.out);
 	cx.stats.write(&args.out, cx.cases.len(), cx.cases.nontrivial, cx.cases.dups, cx.oracle.checks, rule);
